@@ -82,3 +82,20 @@ def gen_fide():
     pairs = dict_astop_to_str(find_assign(wcls, "CTC_TYPES"), resolve)
     body += table_fn("fide_ctc_type", pairs, None)
     write("fide", body)
+
+
+@register("metrics")
+def gen_metrics():
+    tree = parse(f"{REPO_PKG}/operations/fm_metrics.py")
+    cls = find_class(tree, "FMMetrics")
+    names = []
+    for st in cls.body:
+        if isinstance(st, ast.FunctionDef):
+            for dec in st.decorator_list:
+                if isinstance(dec, ast.Name) and dec.id == "metric_method":
+                    names.append(st.name)
+    if not names:
+        raise SystemExit("gen_tables: no @metric_method found")
+    names = sorted(names)          # dir() order
+    body = STR_HDR + "Definition metric_methods : list string :=\n  [" + ";\n   ".join(coq_str(n) for n in names) + "].\n"
+    write("metrics", body)
